@@ -286,6 +286,7 @@ def shards(tier, seed):
         if name.split("/")[-1] in DEEP.get(name.split("/")[0], ()):
             for part in range(3):
                 specs.append({"mode": "conc3", "entry": name, "part": part, "parts": 3, "window": 13 if tier == "quick" else 18})
+    specs.append({"mode": "reenter"})
     n = 300 if tier == "quick" else 5000
     for i in range(8):
         specs.append({"mode": "random", "seed": seed * 1000 + i, "n": n})
@@ -325,7 +326,74 @@ def case_strategy():
     return cases()
 
 
+def reenter_cases():
+    """One input decides at once; every other input stays pending (it is a loser: the combinator cancels it) and carries a user
+    done-callback that calls cancel() on the OUTPUT - from inside the combinator's cancellation of that loser."""
+    out = []
+    for comb in ("f_and", "f_or"):
+        for n in (2, 3, 4):
+            for pos in range(n):
+                for how in ("value", "error"):
+                    if how == "value":
+                        spec = ["value", TRUTHY[pos % len(TRUTHY)] if comb == "f_or" else FALSY[pos % len(FALSY)]]
+                    elif comb == "f_and":
+                        spec = ["error", "E1"]
+                    else:
+                        continue  # (an error does not decide f_or while other inputs are pending)
+                    out.append({"reenter": True, "comb": comb, "n": n, "decider": pos, "spec": spec})
+    return out
+
+
+def eval_reenter(case):
+    import progs
+    import world
+    n = case["n"]
+    expr = [case["comb"]] + [["src", "a%d" % i] for i in range(n)]
+    setup = [["expr", "out", expr]] + [["add_cb", "a%d" % i, "re%d" % i, ["op", ["cancel", "out"]]] for i in range(n) if i != case["decider"]]
+    prog = {"setup": setup, "threads": [[["complete", "a%d" % case["decider"]] + list(case["spec"])]], "settle": 1,
+            "final": [["state", "out"]] + [["state", "a%d" % i] for i in range(n)]}
+    s, w = progs.run_case({"prog": prog, "tape": case.get("tape", []), "clock": "exact", "max_vtime": 100})
+    info = {"end": s.end_reason, "steps": s.steps}
+    viols = []
+
+    def bad(sig, **d):
+        viols.append({"signature": "C14:%s:reenter:%s" % (case["comb"], sig), "detail": d})
+
+    if s.end_reason != "done":
+        bad("run-ended-%s" % s.end_reason)
+        return viols, info
+    h = world.History(s, w)
+    nested = [o for o in h.oplist("cancel") if o["op"][1] == "out"]
+    st = dict((o["op"][1], o["result"][1]) for o in h.oplist("state") if o["result"][0] == "ok")
+    info["got"] = st.get("out")
+    for o in nested:
+        if o["result"] != ["ok", False]:
+            bad("output-cancellable-after-the-decision", result=o["result"], thread=o["thread"])
+    losers = [i for i in range(n) if i != case["decider"]]
+    for i in losers:
+        if not (st.get("a%d" % i) or {}).get("cancelled"):
+            bad("loser-not-cancelled", input=i)
+    if len(nested) != len(losers):
+        bad("callbacks-of-losers-ran-%d-times" % len(nested), expected=len(losers))
+    o = st.get("out") or {}
+    if case["spec"][0] == "value":
+        if not (o.get("done") and not o.get("cancelled") and o.get("value") == world.jsonable(world._thaw(case["spec"][1]))):
+            bad("wrong-outcome", out=o, expected=case["spec"])
+    elif not (o.get("done") and not o.get("cancelled") and "exc" in o):
+        bad("wrong-outcome", out=o, expected=case["spec"])
+    return viols, info
+
+
 def run_shard(spec, ctx):
+    if spec["mode"] == "reenter":
+        cases = reenter_cases()
+        for c in cases:
+            v, info = eval_reenter(c)
+            ctx.case(c, True, ["reenter", "comb:" + c["comb"]], sample={"case": c, "got": info.get("got")})
+            for x in v:
+                ctx.violation(x["signature"], c, x["detail"])
+        ctx.exhaustive.append({"domain": "a loser's done-callback cancels the output: comb x n<=4 x deciding position x value/error", "size": len(cases), "complete": True})
+        return
     if spec["mode"] == "enum":
         k = 0
         for case in enum_cases(spec["maxn"], spec["part"], spec["parts"]):
@@ -373,5 +441,7 @@ def run_shard(spec, ctx):
 
 
 def replay(case):
+    if case.get("reenter"):
+        return eval_reenter(case)[0]
     viols, info = evaluate(case)
     return viols
